@@ -51,6 +51,8 @@ type Faults struct {
 	// QuietAfterWriteErr: once a write has failed nothing more is delivered to the client either
 	// (the connection is dead in both directions, but the read side only goes quiet).
 	QuietAfterWriteErr bool `json:"quiet_after_write_err,omitempty"`
+	// WriteFailAfterLoss: once EOF / a read error was reported, writes fail (broken pipe).
+	WriteFailAfterLoss bool `json:"write_fail_after_loss,omitempty"`
 }
 
 // NoFaults is the fault-free plan.
@@ -519,6 +521,12 @@ func (t *T) Write(b []byte) error {
 		if t.F.QuietAfterWriteErr && t.quietAt < 0 {
 			t.quietAt = t.delivered
 		}
+
+		return ErrSimWrite
+	}
+	if t.lost && t.F.WriteFailAfterLoss {
+		rec.Failed = true
+		t.Writes = append(t.Writes, rec)
 
 		return ErrSimWrite
 	}
